@@ -411,6 +411,7 @@ func (w *world) where(s, f int) string {
 		if err1 != nil || err2 != nil {
 			continue
 		}
+		sh.SetCompactionsEnabled(false) // keep the files open while they are inspected (the run is over anyway)
 		sid := sf.SeriesID([]byte(stor.SeriesMeas(s)), stor.SeriesTags(s), nil)
 		out += fmt.Sprintf("shard%d: series id %d deleted-in-series-file=%v in-index=%v", id, sid, sf.IsDeleted(sid), idx.SeriesIDSet().Contains(sid))
 		if itr, err := idx.MeasurementSeriesIDIterator([]byte(stor.SeriesMeas(s))); err == nil && itr != nil {
@@ -506,29 +507,18 @@ func (w *world) noteOrphans(series []int) {
 	}
 }
 
-// hasData: the engine of the shard holds a value of some field of the series (cache or TSM index).
+// hasData: a cursor over the shard returns a point of some field of the series (cache or TSM files). Read through
+// the engine's cursors, which hold their files; walking FileStore.Files() here would race with compactions
+// closing (unmapping) them.
 func (w *world) hasData(s, shard int) bool {
 	sh := w.st.Shard(uint64(shard))
 	if sh == nil {
 		return false
 	}
-	e, err := sh.Engine()
-	if err != nil {
-		return false
-	}
-	te, ok := e.(*tsm1.Engine)
-	if !ok {
-		return false
-	}
 	for f := 0; f < stor.NFields; f++ {
-		key := stor.FieldKey(s, f)
-		if len(te.Cache.Values(key)) > 0 {
+		pts, err := stor.CursorRead(context.Background(), sh, s, f, models.MinNanoTime, models.MaxNanoTime, true)
+		if err == nil && len(pts) > 0 {
 			return true
-		}
-		for _, tf := range te.FileStore.Files() {
-			if tf.Contains(key) {
-				return true
-			}
 		}
 	}
 	return false
@@ -610,6 +600,8 @@ func (w *world) cycleSuffix(s, f int, min, max int64, asc bool, class, detail st
 	if sh == 0 || shard == nil {
 		return ""
 	}
+	// the run ends with this violation: stop compactions so that the files stay open while they are inspected
+	shard.SetCompactionsEnabled(false)
 	seek := min // the cursor of the shard seeks to the start of the range in read direction
 	if !asc {
 		seek = max
